@@ -46,7 +46,7 @@ package route
 
 // ---------------------------------------------------------------- send-all-match / send-first-match (C01, C03)
 //@ spec destsWf(d []*dest.Destination) :=
-//@      (forall j int :: 0 <= j && j < len(d) ==> d[j] != nil && wfm(d[j].Matcher) && !d[j].lockMatcher.held && d[j].In != nil)
+//@      (forall j int :: 0 <= j && j < len(d) ==> d[j] != nil && wfm(d[j].Matcher) && !d[j].lockMatcher.held && d[j].In != nil && !closed(d[j].In))
 //@   && (forall i int, j int :: 0 <= i && i < j && j < len(d) ==> d[i] != d[j] && d[i].In != d[j].In)
 //@ spec destAccepts(d *dest.Destination, name bytes) := matchSpec(d.Matcher, name)
 //@
